@@ -1,2 +1,480 @@
+// c19.hpp - C19: the validator accepts every rule-conforming file, flags every hard-rule breach with an
+// error at the breached entity, and reports soft-rule breaches as warnings only.
+//
+// A constructive generator builds a conforming file; File::validate() must report no error. Then 0-5
+// breaches are injected at entities chosen from the tape - through the public API where it allows them,
+// through the raw HDF5 C API where the API (rightly) refuses (unsorted ticks, interval <= 0). Oracle:
+//   * every hard-breached entity carries at least one error (descriptor-level rules, whose messages have no
+//     entity id: at least as many such errors as breached descriptors);
+//   * no entity that was not hard-breached carries an error (soft breaches never produce errors);
+//   * every soft breach the validator has a rule for produces a warning at that entity.
 #pragma once
-namespace c19 { static void body(vf::Tape &, vf::Ctx &) {} }
+#include "region.hpp"
+
+namespace c19 {
+
+using namespace vf;
+using namespace rg;
+
+struct ArrInfo {
+    std::string block, name, id;
+    ArraySpec spec;
+    bool shared = false; // referenced by tags (not used for deletion)
+};
+struct TagInfo {
+    std::string block, name, id;
+    bool multi = false;
+    size_t ref = 0;      // index into arrays
+    size_t nunits = 0;
+    std::string posName; // multi tag: dedicated positions array
+    std::vector<std::pair<std::string, std::string>> features; // (feature id, dedicated data array name)
+};
+struct PropInfo { std::vector<std::string> path; std::string name, id; bool hasValues = false; };
+
+struct World {
+    std::string path;
+    nix::File f;
+    std::vector<ArrInfo> arrays;
+    std::vector<TagInfo> tags;
+    std::vector<PropInfo> props;
+    std::vector<std::string> blocks;
+    std::set<std::string> allIds;
+};
+
+static const char *SI_BASE[] = {"s", "V", "m", "Hz", "A"};
+
+static void buildConforming(Tape &t, Ctx &ctx, World &w) {
+    w.f = nix::File::open(w.path, nix::FileMode::Overwrite);
+    size_t nb = 1 + t.below(3);
+    for (size_t bi = 0; bi < nb; bi++) {
+        std::string bn = "block" + std::to_string(bi);
+        nix::Block b = w.f.createBlock(bn, "t");
+        w.blocks.push_back(bn);
+        w.allIds.insert(b.id());
+        size_t na = 1 + t.below(4);
+        size_t firstArr = w.arrays.size();
+        for (size_t k = 0; k < na; k++) {
+            ArrInfo ai;
+            ai.block = bn;
+            ai.name = "arr" + std::to_string(k);
+            ai.spec = genArray(t, 1, 3, 6, t.flip());
+            // units of the descriptors must be atomic SI units: genArray only produces such units
+            nix::DataArray a = buildArray(b, ai.name, ai.spec);
+            ai.id = a.id();
+            switch (t.pick({3, 3, 2})) {
+            case 0: break;
+            case 1: a.unit(std::string(t.flip() ? "m" : "") + SI_BASE[t.below(5)]); break;
+            default: a.unit("mV/s"); break;
+            }
+            if (t.chance(30)) { a.polynomCoefficients({1.0, 2.0}); a.expansionOrigin(0.5); }
+            w.arrays.push_back(ai);
+            w.allIds.insert(ai.id);
+        }
+        size_t nt = t.below(4);
+        for (size_t k = 0; k < nt; k++) {
+            TagInfo ti;
+            ti.block = bn;
+            ti.multi = t.flip();
+            ti.name = std::string(ti.multi ? "mtag" : "tag") + std::to_string(k);
+            ti.ref = firstArr + t.below(static_cast<uint32_t>(na));
+            ArrInfo &ra = w.arrays[ti.ref];
+            ra.shared = true;
+            nix::DataArray ref = b.getDataArray(ra.name);
+            size_t R = ra.spec.rank();
+            size_t npos = 1 + t.below(static_cast<uint32_t>(R));
+            // units convertible to the referenced dimensions' units (another prefix of the same base), or none
+            std::vector<std::string> units;
+            bool anyUnit = false;
+            size_t nu = t.below(static_cast<uint32_t>(npos + 1));
+            for (size_t d = 0; d < nu; d++) {
+                const std::string &du = ra.spec.dims[d].axis.unit;
+                if (!du.empty() && t.chance(75)) {
+                    // strip the prefix of the dimension unit (units come from rg::genUnit: prefix in {"" m u k n M} + base)
+                    std::string base = du;
+                    for (auto bs : BASES) { std::string s = bs; if (du.size() >= s.size() && du.compare(du.size() - s.size(), s.size(), s) == 0) base = s; }
+                    units.push_back(std::string(PREFIXES[t.below(6)].first) + base);
+                    anyUnit = true;
+                } else if (du.empty()) units.push_back("mV"); // the dimension has no unit: any SI unit is acceptable there
+                else units.push_back(du);
+            }
+            if (ti.multi) {
+                ti.posName = "pos_" + ti.name;
+                size_t N = 1 + t.below(4);
+                nix::NDSize shape = R == 1 ? nix::NDSize({static_cast<nix::ndsize_t>(N)}) : nix::NDSize({static_cast<nix::ndsize_t>(N), static_cast<nix::ndsize_t>(npos)});
+                nix::DataArray pa = b.createDataArray(ti.posName, "t", nix::DataType::Double, shape);
+                pa.appendSetDimension();
+                if (R != 1) pa.appendSetDimension();
+                w.allIds.insert(pa.id());
+                nix::MultiTag mt = b.createMultiTag(ti.name, "t", pa);
+                if (anyUnit) mt.units(units);
+                mt.addReference(ref);
+                ti.id = mt.id();
+                ti.nunits = anyUnit ? units.size() : 0;
+                size_t nf = t.below(3);
+                for (size_t q = 0; q < nf; q++) {
+                    std::string dn = "fd_" + ti.name + "_" + std::to_string(q);
+                    nix::DataArray fd = b.createDataArray(dn, "t", nix::DataType::Double, nix::NDSize({static_cast<nix::ndsize_t>(2)}));
+                    fd.appendSetDimension();
+                    w.allIds.insert(fd.id());
+                    nix::Feature ft = mt.createFeature(fd, static_cast<nix::LinkType>(t.below(3)));
+                    ti.features.emplace_back(ft.id(), dn);
+                    w.allIds.insert(ft.id());
+                }
+            } else {
+                std::vector<double> pos(npos, 0.0);
+                nix::Tag tg = b.createTag(ti.name, "t", pos);
+                if (anyUnit) tg.units(units);
+                tg.addReference(ref);
+                ti.id = tg.id();
+                ti.nunits = anyUnit ? units.size() : 0;
+                size_t nf = t.below(3);
+                for (size_t q = 0; q < nf; q++) {
+                    std::string dn = "fd_" + ti.name + "_" + std::to_string(q);
+                    nix::DataArray fd = b.createDataArray(dn, "t", nix::DataType::Double, nix::NDSize({static_cast<nix::ndsize_t>(2)}));
+                    fd.appendSetDimension();
+                    w.allIds.insert(fd.id());
+                    nix::Feature ft = tg.createFeature(fd, static_cast<nix::LinkType>(t.below(3)));
+                    ti.features.emplace_back(ft.id(), dn);
+                    w.allIds.insert(ft.id());
+                }
+            }
+            w.tags.push_back(ti);
+            w.allIds.insert(ti.id);
+        }
+        size_t ns = t.below(3);
+        for (size_t k = 0; k < ns; k++) {
+            nix::Source s = b.createSource("src" + std::to_string(k), "t");
+            w.allIds.insert(s.id());
+            if (t.flip()) w.allIds.insert(s.createSource("child", "t").id());
+        }
+    }
+    size_t nsec = t.below(4);
+    for (size_t k = 0; k < nsec; k++) {
+        nix::Section s = w.f.createSection("sec" + std::to_string(k), "t");
+        w.allIds.insert(s.id());
+        std::vector<std::string> path = {s.name()};
+        nix::Section cur = s;
+        if (t.flip()) { cur = s.createSection("sub", "t"); path.push_back("sub"); w.allIds.insert(cur.id()); }
+        size_t np = t.below(3);
+        for (size_t q = 0; q < np; q++) {
+            PropInfo pi;
+            pi.path = path;
+            pi.name = "p" + std::to_string(q);
+            if (t.flip()) {
+                nix::Property p = cur.createProperty(pi.name, nix::Variant(1.5));
+                p.unit("mV");
+                pi.hasValues = true;
+                pi.id = p.id();
+            } else {
+                pi.id = cur.createProperty(pi.name, nix::DataType::Double).id();
+            }
+            w.props.push_back(pi);
+            w.allIds.insert(pi.id);
+        }
+    }
+    (void)ctx;
+}
+
+struct Findings {
+    std::map<std::string, size_t> errById, warnById;
+    size_t errNoEntity = 0, warnNoEntity = 0;
+    std::vector<std::string> errText;
+};
+
+static Findings runValidator(World &w) {
+    Findings fd;
+    nix::valid::Result r = w.f.validate();
+    for (auto &e : r.getErrors()) {
+        if (w.allIds.count(e.id)) fd.errById[e.id]++;
+        else fd.errNoEntity++;
+        fd.errText.push_back(e.id.substr(0, 8) + ":" + e.msg);
+    }
+    for (auto &e : r.getWarnings()) {
+        if (w.allIds.count(e.id)) fd.warnById[e.id]++;
+        else fd.warnNoEntity++;
+    }
+    return fd;
+}
+
+static bool h5_edit(const std::string &file, const std::string &objPath, const std::function<bool(hid_t)> &fn) {
+    hid_t f = H5Fopen(file.c_str(), H5F_ACC_RDWR, H5P_DEFAULT);
+    if (f < 0) return false;
+    hid_t o = H5Oopen(f, objPath.c_str(), H5P_DEFAULT);
+    bool ok = o >= 0 && fn(o);
+    if (o >= 0) H5Oclose(o);
+    H5Fclose(f);
+    return ok;
+}
+
+static void body(Tape &t, Ctx &ctx) {
+    World w;
+    w.path = ctx.path("c19.nix");
+    buildConforming(t, ctx, w);
+    ctx.trace << "C19 file: " << w.blocks.size() << " blocks, " << w.arrays.size() << " arrays, " << w.tags.size() << " tags, " << w.props.size() << " properties;";
+    Findings base = runValidator(w);
+    {
+        std::string all;
+        for (auto &e : base.errText) all += " [" + e + "]";
+        VCHECK(base.errText.empty(), "the validator reports " << base.errText.size() << " error(s) for a file that conforms to every hard rule:" << all);
+    }
+    // ---- breaches
+    size_t nbreach = t.below(6);
+    std::set<std::string> hardIds, softIds, locked; // locked: arrays whose descriptors a breached tag unit refers to
+    size_t hardDescriptors = 0, softDescriptors = 0;
+    std::set<std::string> softDescSeen;
+    bool offFirst = false;
+    std::vector<std::function<bool()>> raw; // edits that need the file closed
+    for (size_t k = 0; k < nbreach; k++) {
+        switch (t.pick({3, 3, 2, 2, 2, 2, 2, 2, 2, 1, 1, 1, 1})) {
+        case 0: { // number of descriptors differs from the rank
+            if (w.arrays.empty()) break;
+            size_t i = t.below(static_cast<uint32_t>(w.arrays.size()));
+            ArrInfo &ai = w.arrays[i];
+            if (locked.count(ai.id) || hardIds.count(ai.id) || hardIds.count("descriptor-of:" + ai.id) || softDescSeen.count("array:" + ai.id)) break;
+            nix::DataArray a = w.f.getBlock(ai.block).getDataArray(ai.name);
+            if (t.flip()) { a.appendSetDimension(); ctx.trace << " +descriptor(" << ai.name << ")"; }
+            else { a.deleteDimensions(); ctx.trace << " -descriptors(" << ai.name << ")"; }
+            hardIds.insert(ai.id);
+            if (i > 0) offFirst = true;
+            break;
+        }
+        case 1: { // ticks / labels / rows differ from the data length
+            if (w.arrays.empty()) break;
+            size_t i = t.below(static_cast<uint32_t>(w.arrays.size()));
+            ArrInfo &ai = w.arrays[i];
+            if (hardIds.count(ai.id) || locked.count(ai.id) || hardIds.count("descriptor-of:" + ai.id)) break;
+            nix::DataArray a = w.f.getBlock(ai.block).getDataArray(ai.name);
+            size_t d = t.below(static_cast<uint32_t>(ai.spec.rank()));
+            const DimSpec &ds = ai.spec.dims[d];
+            nix::Dimension dim = a.getDimension(d + 1);
+            uint64_t n = ai.spec.ext[d];
+            bool done = false;
+            if (ds.axis.kind == AK::Range) {
+                std::vector<double> tk = ds.axis.ticks;
+                if (t.flip() && tk.size() > 1) tk.pop_back(); else tk.push_back(tk.back() + 1.0);
+                dim.asRangeDimension().ticks(tk);
+                done = true;
+                ctx.trace << " ticks-count(" << ai.name << " dim " << d + 1 << ")";
+            } else if (ds.axis.kind == AK::Set) {
+                std::vector<std::string> l(n + 1 + t.below(2), "x");
+                dim.asSetDimension().labels(l);
+                done = true;
+                ctx.trace << " labels-count(" << ai.name << " dim " << d + 1 << ")";
+            } else if (ds.axis.kind == AK::Frame) {
+                nix::DataFrame df = w.f.getBlock(ai.block).getDataFrame(ai.name + "_f" + std::to_string(d));
+                df.rows(n + 1 + t.below(2));
+                done = true;
+                ctx.trace << " rows-count(" << ai.name << " dim " << d + 1 << ")";
+            }
+            if (done) { hardIds.insert(ai.id); if (i > 0 || d > 0) offFirst = true; }
+            break;
+        }
+        case 2: { // unsorted ticks (raw)
+            if (w.arrays.empty()) break;
+            size_t i = t.below(static_cast<uint32_t>(w.arrays.size()));
+            ArrInfo &ai = w.arrays[i];
+            if (hardIds.count(ai.id) || locked.count(ai.id) || hardIds.count("descriptor-of:" + ai.id)) break;
+            for (size_t d = 0; d < ai.spec.rank(); d++) {
+                if (ai.spec.dims[d].axis.kind != AK::Range || ai.spec.ext[d] < 2) continue;
+                std::vector<double> tk = ai.spec.dims[d].axis.ticks;
+                std::swap(tk.front(), tk.back());
+                std::string p = "/data/" + ai.block + "/data_arrays/" + ai.name + "/dimensions/" + std::to_string(d + 1) + "/ticks";
+                std::string file = w.path;
+                raw.push_back([file, p, tk] { return h5_edit(file, p, [&](hid_t o) { return H5Dwrite(o, H5T_NATIVE_DOUBLE, H5S_ALL, H5S_ALL, H5P_DEFAULT, tk.data()) >= 0; }); });
+                hardDescriptors++;
+                hardIds.insert("descriptor-of:" + ai.id);
+                ai.spec.dims[d].axis.ticks = tk;
+                ctx.trace << " unsorted-ticks(" << ai.name << " dim " << d + 1 << ")";
+                if (i > 0 || d > 0) offFirst = true;
+                break;
+            }
+            break;
+        }
+        case 3: { // non-positive interval (raw)
+            if (w.arrays.empty()) break;
+            size_t i = t.below(static_cast<uint32_t>(w.arrays.size()));
+            ArrInfo &ai = w.arrays[i];
+            if (hardIds.count(ai.id) || locked.count(ai.id) || hardIds.count("descriptor-of:" + ai.id)) break;
+            for (size_t d = 0; d < ai.spec.rank(); d++) {
+                if (ai.spec.dims[d].axis.kind != AK::Sampled || ai.spec.dims[d].axis.interval <= 0) continue;
+                double v = t.flip() ? 0.0 : -ai.spec.dims[d].axis.interval;
+                std::string p = "/data/" + ai.block + "/data_arrays/" + ai.name + "/dimensions/" + std::to_string(d + 1);
+                std::string file = w.path;
+                raw.push_back([file, p, v] {
+                    return h5_edit(file, p, [&](hid_t o) {
+                        hid_t a = H5Aopen(o, "sampling_interval", H5P_DEFAULT);
+                        bool ok = a >= 0 && H5Awrite(a, H5T_NATIVE_DOUBLE, &v) >= 0;
+                        if (a >= 0) H5Aclose(a);
+                        return ok;
+                    });
+                });
+                hardDescriptors++;
+                hardIds.insert("descriptor-of:" + ai.id);
+                ai.spec.dims[d].axis.interval = v;
+                ctx.trace << " interval<=0(" << ai.name << " dim " << d + 1 << ")";
+                if (i > 0 || d > 0) offFirst = true;
+                break;
+            }
+            break;
+        }
+        case 4: { // tag unit that cannot be converted
+            if (w.tags.empty()) break;
+            size_t i = t.below(static_cast<uint32_t>(w.tags.size()));
+            TagInfo &ti = w.tags[i];
+            ArrInfo &ra = w.arrays[ti.ref];
+            if (hardIds.count(ra.id) || hardIds.count("descriptor-of:" + ra.id)) break; // the referenced descriptors must still be there
+            // a dimension of the reference that has a unit
+            std::vector<size_t> cand;
+            for (size_t d = 0; d < ra.spec.rank(); d++) if (!ra.spec.dims[d].axis.unit.empty()) cand.push_back(d);
+            if (cand.empty()) break;
+            size_t d = cand[t.below(static_cast<uint32_t>(cand.size()))];
+            std::vector<std::string> units(d + 1 + t.below(static_cast<uint32_t>(ra.spec.rank() - d)));
+            for (size_t e = 0; e < units.size(); e++) units[e] = ra.spec.dims[e].axis.unit.empty() ? std::string("mV") : ra.spec.dims[e].axis.unit;
+            const std::string du = ra.spec.dims[d].axis.unit;
+            // another base unit
+            std::string other = "K";
+            for (auto bs : SI_BASE) if (du.find(bs) == std::string::npos) other = bs;
+            if (du.size() >= other.size() && du.compare(du.size() - other.size(), other.size(), other) == 0) other = "cd";
+            units[d] = (t.flip() ? "m" : "") + other;
+            if (t.chance(20)) units.resize(ra.spec.rank() + 1, "mV"); // more units than the reference has dimensions: no rule forbids it
+            locked.insert(ra.id);
+            nix::Block b = w.f.getBlock(ti.block);
+            if (ti.multi) b.getMultiTag(ti.name).units(units); else b.getTag(ti.name).units(units);
+            hardIds.insert(ti.id);
+            ctx.trace << " inconvertible-unit(" << ti.name << " -> " << ra.name << ": units";
+            for (auto &u : units) ctx.trace << " " << u;
+            ctx.trace << " vs dimension units";
+            for (auto &dd : ra.spec.dims) ctx.trace << " " << (dd.axis.unit.empty() ? "-" : dd.axis.unit);
+            ctx.trace << ")";
+            if (d > 0 || i > 0) offFirst = true;
+            break;
+        }
+        case 5: { // multi tag without positions
+            std::vector<size_t> cand;
+            for (size_t i = 0; i < w.tags.size(); i++) if (w.tags[i].multi && !hardIds.count(w.tags[i].id + ":nopos")) cand.push_back(i);
+            if (cand.empty()) break;
+            TagInfo &ti = w.tags[cand[t.below(static_cast<uint32_t>(cand.size()))]];
+            nix::Block b = w.f.getBlock(ti.block);
+            if (!b.hasDataArray(ti.posName)) break;
+            w.allIds.erase(b.getDataArray(ti.posName).id());
+            b.deleteDataArray(ti.posName);
+            hardIds.insert(ti.id);
+            hardIds.insert(ti.id + ":nopos");
+            ctx.trace << " no-positions(" << ti.name << ")";
+            break;
+        }
+        case 6: { // feature without data
+            std::vector<std::pair<size_t, size_t>> cand;
+            for (size_t i = 0; i < w.tags.size(); i++) for (size_t q = 0; q < w.tags[i].features.size(); q++) cand.emplace_back(i, q);
+            if (cand.empty()) break;
+            auto c = cand[t.below(static_cast<uint32_t>(cand.size()))];
+            TagInfo &ti = w.tags[c.first];
+            nix::Block b = w.f.getBlock(ti.block);
+            const std::string &dn = ti.features[c.second].second;
+            if (!b.hasDataArray(dn)) break;
+            w.allIds.erase(b.getDataArray(dn).id());
+            b.deleteDataArray(dn);
+            hardIds.insert(ti.features[c.second].first);
+            ctx.trace << " feature-without-data(" << ti.name << " feature " << c.second << ")";
+            if (c.second > 0) offFirst = true;
+            break;
+        }
+        // ---- soft rules
+        case 7: { // non-SI array unit
+            if (w.arrays.empty()) break;
+            ArrInfo &ai = w.arrays[t.below(static_cast<uint32_t>(w.arrays.size()))];
+            w.f.getBlock(ai.block).getDataArray(ai.name).unit(t.flip() ? "foo" : "volts");
+            softIds.insert(ai.id);
+            ctx.trace << " soft:non-SI-unit(" << ai.name << ")";
+            break;
+        }
+        case 8: { // coefficients without origin / origin without coefficients
+            if (w.arrays.empty()) break;
+            ArrInfo &ai = w.arrays[t.below(static_cast<uint32_t>(w.arrays.size()))];
+            nix::DataArray a = w.f.getBlock(ai.block).getDataArray(ai.name);
+            if (t.flip()) { a.polynomCoefficients({1.0, 3.0}); a.expansionOrigin(nix::none); ctx.trace << " soft:coefficients-without-origin(" << ai.name << ")"; }
+            else { a.polynomCoefficients(nix::none); a.expansionOrigin(2.0); ctx.trace << " soft:origin-without-coefficients(" << ai.name << ")"; }
+            softIds.insert(ai.id);
+            break;
+        }
+        case 9: { // missing array unit: no rule, must simply not be an error
+            if (w.arrays.empty()) break;
+            ArrInfo &ai = w.arrays[t.below(static_cast<uint32_t>(w.arrays.size()))];
+            if (softIds.count(ai.id)) break;
+            w.f.getBlock(ai.block).getDataArray(ai.name).unit(nix::none);
+            ctx.trace << " soft:missing-unit(" << ai.name << ")";
+            break;
+        }
+        case 10: { // property values without unit
+            std::vector<size_t> cand;
+            for (size_t i = 0; i < w.props.size(); i++) if (w.props[i].hasValues) cand.push_back(i);
+            if (cand.empty()) break;
+            PropInfo &pi = w.props[cand[t.below(static_cast<uint32_t>(cand.size()))]];
+            nix::Section s = w.f.getSection(pi.path[0]);
+            for (size_t q = 1; q < pi.path.size(); q++) s = s.getSection(pi.path[q]);
+            s.getProperty(pi.name).unit(boost::none);
+            softIds.insert(pi.id);
+            ctx.trace << " soft:values-without-unit(" << pi.name << ")";
+            break;
+        }
+        case 11: { // offset without unit
+            if (w.arrays.empty()) break;
+            ArrInfo &ai = w.arrays[t.below(static_cast<uint32_t>(w.arrays.size()))];
+            if (hardIds.count(ai.id) || hardIds.count("descriptor-of:" + ai.id) || locked.count(ai.id)) break;
+            nix::DataArray a = w.f.getBlock(ai.block).getDataArray(ai.name);
+            for (size_t d = 0; d < ai.spec.rank(); d++) {
+                if (ai.spec.dims[d].axis.kind != AK::Sampled) continue;
+                nix::SampledDimension sd = a.getDimension(d + 1).asSampledDimension();
+                sd.offset(1.5);
+                sd.unit(nix::none);
+                if (softDescSeen.insert(ai.id + "/" + std::to_string(d)).second) softDescriptors++;
+                softDescSeen.insert("array:" + ai.id);
+                ctx.trace << " soft:offset-without-unit(" << ai.name << " dim " << d + 1 << ")";
+                // a tag that relied on this unit would now be judged against "no unit", which is still conforming
+                ai.spec.dims[d].axis.unit.clear();
+                break;
+            }
+            break;
+        }
+        default: break;
+        }
+    }
+    if (!raw.empty()) {
+        w.f.close();
+        for (auto &e : raw) VCHECK(e(), "harness: raw HDF5 edit failed");
+        w.f = nix::File::open(w.path, nix::FileMode::ReadWrite);
+    }
+    Findings fd;
+    try {
+        fd = runValidator(w);
+    } catch (const std::exception &e) {
+        VCHECK(false, "File::validate() threw " << typeid(e).name() << ": " << e.what());
+    }
+    std::string all;
+    for (auto &e : fd.errText) all += " [" + e + "]";
+    // every hard-breached entity is flagged
+    for (auto &id : hardIds) {
+        if (id.find(':') != std::string::npos) continue;
+        VCHECK(fd.errById.count(id) > 0, "the entity " << id << " breaches a hard rule but the validator reports no error for it; errors:" << all);
+    }
+    VCHECK(fd.errNoEntity >= hardDescriptors, hardDescriptors << " dimension descriptor(s) breach a hard rule (unsorted ticks / interval <= 0) but only " << fd.errNoEntity
+                                                              << " descriptor-level error(s) are reported; errors:" << all);
+    // nothing else is flagged as an error: conforming entities and soft breaches
+    for (auto &kv : fd.errById)
+        VCHECK(hardIds.count(kv.first) > 0, "the validator reports an error for entity " << kv.first << " which breaches no hard rule" << (softIds.count(kv.first) ? " (only a soft rule)" : "")
+                                                                                          << "; errors:" << all);
+    if (hardDescriptors == 0) VCHECK(fd.errNoEntity == 0, "the validator reports " << fd.errNoEntity << " descriptor-level error(s) although no descriptor breaches a hard rule; errors:" << all);
+    // soft breaches produce warnings
+    for (auto &id : softIds)
+        VCHECK(fd.warnById.count(id) > 0, "the entity " << id << " breaches a soft rule but the validator reports no warning for it");
+    VCHECK(fd.warnNoEntity >= softDescriptors, softDescriptors << " descriptor(s) have an offset without unit but only " << fd.warnNoEntity << " descriptor-level warning(s) are reported");
+    w.f.close();
+    ctx.count("breaches_hard", hardIds.size());
+    ctx.count("breaches_soft", softIds.size() + softDescriptors);
+    if (nbreach == 0) ctx.count("conforming_only");
+    bool rich = w.blocks.size() >= 2;
+    for (auto &a : w.arrays) if (a.spec.rank() >= 2) rich = true;
+    ctx.nontrivial = rich && (hardIds.size() + hardDescriptors > 0) && offFirst;
+}
+
+} // namespace c19
